@@ -229,6 +229,7 @@ func (vc *VC) prelude() string {
 		b.WriteString(new(big.Int).Lsh(big.NewInt(1), 64).String())
 		b.WriteString(strings.Repeat(")", 64))
 		b.WriteString(")\n")
+		b.WriteString("(declare-fun at (Int Int) Int)\n(assert (forall ((o Int) (i Int)) (! (= (at o i) (+ o i)) :pattern ((at o i)))))\n")
 		b.WriteString("(declare-fun band (Int Int) Int)\n(declare-fun bor (Int Int) Int)\n(declare-fun bxor (Int Int) Int)\n")
 	}
 	return b.String()
@@ -343,7 +344,12 @@ func (vc *VC) typingFact(tm *Term) string {
 		z := vc.intLit(0, 64)
 		ub := "true"
 		if vc.mode != "bv" {
-			ub = "(<= (s-cap " + tm.S + ") 9223372036854775807)"
+			// an array of cap elements fits in the address space
+			sz := types.SizesFor("gc", "amd64").Sizeof(u.Elem())
+			if sz < 1 {
+				sz = 1
+			}
+			ub = "(<= (s-cap " + tm.S + ") " + new(big.Int).Div(big.NewInt(9223372036854775807), big.NewInt(sz)).String() + ")"
 		}
 		return fmt.Sprintf("(and %s %s %s %s (>= (rid (s-ref %s)) 0))", vc.le(z, "(s-off "+tm.S+")", true), vc.le(z, "(s-len "+tm.S+")", true),
 			vc.le("(s-len "+tm.S+")", "(s-cap "+tm.S+")", true), ub, tm.S)
